@@ -8,6 +8,7 @@ import (
 	"reflect"
 	"runtime/debug"
 	"strings"
+	"time"
 
 	hio "github.com/hprose/hprose-golang/v3/io"
 
@@ -89,13 +90,47 @@ func failedEncode(t *tr.Writer, id int, g gen.Gen, v gen.Val, mode string, extra
 		return
 	}
 	rec := tr.Rec{"ev": "one", "case": id, "kind": "rt", "shape": g.Name, "class": v.Class, "mode": mode, "leaf": g.Leaf,
-		"encerr": "none", "encpanic": msg, "in": fmtx.AbsValue(v.V), "nvals": 1, "errmsg": "none", "haserr": false,
+		"encerr": "none", "encpanic": msg, "in": fmtx.AbsValue(v.V), "nvals": 1, "errmsg": "none", "haserr": false, "unwritable": false,
 		"toks": []fmtx.Tok{}, "ntoks": 0, "decerr": "none", "decpanic": "none",
 		"out": fmtx.Graph{Nodes: []fmtx.AV{}, Root: fmtx.AV{"k": "nil"}}, "outfault": "none"}
 	for k, x := range extra {
 		rec[k] = x
 	}
 	t.Emit(rec)
+}
+
+// hasUnwritable: the value holds something the format has no form for (a time whose year is outside 0..9999)
+func hasUnwritable(v reflect.Value, depth int) bool {
+	if !v.IsValid() || depth > 6 {
+		return false
+	}
+	if v.Type() == reflect.TypeOf(time.Time{}) {
+		y := v.Interface().(time.Time).Year()
+		return y < 0 || y > 9999
+	}
+	switch v.Kind() {
+	case reflect.Ptr, reflect.Interface:
+		return !v.IsNil() && hasUnwritable(v.Elem(), depth+1)
+	case reflect.Slice, reflect.Array:
+		for i := 0; i < v.Len() && i < 64; i++ {
+			if hasUnwritable(v.Index(i), depth+1) {
+				return true
+			}
+		}
+	case reflect.Map:
+		for _, k := range v.MapKeys() {
+			if hasUnwritable(k, depth+1) || hasUnwritable(v.MapIndex(k), depth+1) {
+				return true
+			}
+		}
+	case reflect.Struct:
+		for i := 0; i < v.NumField(); i++ {
+			if v.Type().Field(i).PkgPath == "" && hasUnwritable(v.Field(i), depth+1) {
+				return true
+			}
+		}
+	}
+	return false
 }
 
 // roundTrip runs one case and emits its record.
@@ -105,6 +140,7 @@ func roundTrip(t *tr.Writer, id int, g gen.Gen, v gen.Val, mode string, extra tr
 	rec := tr.Rec{"ev": "one", "case": id, "kind": "rt", "shape": g.Name, "class": v.Class, "mode": mode, "leaf": g.Leaf,
 		"encerr": none(encErr), "encpanic": none(encPanic), "in": fmtx.AbsValue(v.V), "nvals": 1, "errmsg": "none"}
 	rec["haserr"] = containsErr(rec["in"].(fmtx.Graph))
+	rec["unwritable"] = hasUnwritable(v.V, 0)
 	if in := rec["in"].(fmtx.Graph); in.Root["k"] == "error" {
 		if b, err := hex.DecodeString(in.Root["s"].(string)); err == nil {
 			rec["errmsg"] = string(b)
